@@ -444,6 +444,30 @@ def _corpus():
                                    ('return', num(0))]),
            ('if', cond, [('break',)], [('print', num(1))])]),
          ('print', ('call', 'h', [num(5)]))],
+        # `return` taken inside two and inside three nested loops of the routine (counted, ranged,
+        # list and while loops): every loop that was entered is left, the call's frame is left,
+        # and the statement after the call runs
+        [('assign', 'x', num(1)),
+         ('define', 'find', ['t'],
+          [('repeat', ('range', 'i', num(1), num(3)),
+            [('repeat', ('range', 'j', num(1), num(3)),
+              [('if', ('expr', ('bin', '==', ('bin', '*', ('var', 'i'), ('var', 'j')), ('var', 't'))),
+                [('return', ('expr', ('bin', '+', ('bin', '*', ('var', 'i'), num(10)), ('var', 'j'))))], None)])]),
+           ('return', num(0))]),
+         ('print', ('call', 'find', [num(6)])), ('print', ('call', 'find', [num(7)])),
+         ('repeat', ('count', num(2)), [('print', ('call', 'find', [num(2)]))]), ('print', num(99))],
+        [('assign', 'x', num(1)),
+         ('define', 'deep', ['t'],
+          [('assign', 'c', num(0)),
+           ('repeat', ('count', num(2)),
+            [('repeat', ('in', [('light', ('str', 'p')), ('light', ('str', 'q'))], 'u', None),
+              [('repeat', ('while', ('expr', ('bin', '<', ('var', 'c'), num(50))), 'c'),
+                [('assign', 'c', ('expr', ('bin', '+', ('var', 'c'), num(1)))),
+                 ('if', ('expr', ('bin', '>=', ('var', 'c'), ('var', 't'))), [('return', ('var', 'c'))], None),
+                 ('if', ('expr', ('bin', '==', ('bin', '%', ('var', 'c'), num(3)), num(0))), [('break',)], None)])])]),
+           ('return', num(-1))]),
+         ('print', ('call', 'deep', [num(1)])), ('print', ('call', 'deep', [num(5)])),
+         ('print', ('call', 'deep', [num(100)])), ('print', num(98))],
     ]
 
 
